@@ -2,6 +2,7 @@
 package main
 
 import (
+	"context"
 	"fmt"
 	"math/rand/v2"
 	"strings"
@@ -46,11 +47,75 @@ func (eng) Cases(seed uint64, tier string) []core.CaseDesc {
 	for i := 0; i < n; i++ {
 		cs = append(cs, core.CaseDesc{ID: fmt.Sprintf("run/%05d", i), Kind: "run", Seed: seed*1000003 + uint64(i)})
 	}
+	// two machines made from one Opts.Tracers slice
+	for i := 0; i < 2; i++ {
+		cs = append(cs, core.CaseDesc{ID: fmt.Sprintf("shared-opts/%02d", i), Kind: "shared-opts", Seed: uint64(i)})
+	}
 	return cs
+}
+
+// runSharedOpts: two machines are made from the same Opts.Tracers slice (a
+// shared list of tracers is an ordinary way to configure several machines).
+// What one machine does to its tracer list - detach (case 0), bind (case 1) -
+// must not reach the other: its tracers still get every transition.
+func runSharedOpts(res *core.CaseResult, c core.CaseDesc) {
+	schema := am.Schema{"A": {}, "B": {}}
+	t1, t2 := rec.NewTracer("t1"), rec.NewTracer("t2")
+	t1.NoSample, t2.NoSample = true, true
+	shared := make([]am.Tracer, 0, 4)
+	shared = append(shared, t1, t2)
+	m1 := am.New(context.Background(), schema, &am.Opts{Id: "c14so1", DontLogId: true, DontLogStackTrace: true, Tracers: shared})
+	m2 := am.New(context.Background(), schema, &am.Opts{Id: "c14so2", DontLogId: true, DontLogStackTrace: true, Tracers: shared})
+	defer m1.Dispose()
+	defer m2.Dispose()
+	x, y := rec.NewTracer("x"), rec.NewTracer("y")
+	x.NoSample, y.NoSample = true, true
+	var what string
+	if c.Seed == 0 {
+		what = "m1.DetachTracer(t1)"
+		_ = m1.DetachTracer("t1")
+	} else {
+		what = "m1.BindTracer(x) then m2.BindTracer(y)"
+		_, _ = m1.BindTracer(x)
+		_, _ = m2.BindTracer(y)
+	}
+	res.Evals++
+	var pan any
+	func() {
+		defer func() { pan = recover() }()
+		m2.Add1("A", nil)
+		m1.Add1("B", nil)
+	}()
+	if pan != nil {
+		res.Violate("C14/shared-opts/panic", fmt.Sprintf("after %s a mutation panicked: %v (both machines were made from one Opts.Tracers slice)", what, pan), nil)
+		return
+	}
+	count := func(tr *rec.Tracer, wantUidless int) int { return len(tr.Snapshot()) }
+	if c.Seed == 0 {
+		// t2 stays bound to both, t1 to m2 only: t2 sees 2 transitions, t1 one
+		if n := count(t2, 0); n != 2 {
+			res.Violate("C14/shared-opts/tracer-missed", fmt.Sprintf("after %s tracer t2 (bound to both machines) saw %d of their 2 transitions", what, n), nil)
+		}
+		if n := count(t1, 0); n != 1 {
+			res.Violate("C14/shared-opts/tracer-missed", fmt.Sprintf("after %s tracer t1 (still bound to m2) saw %d transitions, want 1", what, n), nil)
+		}
+	} else {
+		if n := count(x, 0); n != 1 {
+			res.Violate("C14/shared-opts/tracer-missed", fmt.Sprintf("after %s tracer x (bound to m1 before its mutation) saw %d transitions, want 1", what, n), nil)
+		}
+		if n := count(y, 0); n != 1 {
+			res.Violate("C14/shared-opts/tracer-missed", fmt.Sprintf("after %s tracer y (bound to m2 before its mutation) saw %d transitions, want 1", what, n), nil)
+		}
+	}
+	res.Key("shared-opts", c.Seed)
 }
 
 func (eng) Run(c core.CaseDesc, tier string) *core.CaseResult {
 	res := &core.CaseResult{Case: c}
+	if c.Kind == "shared-opts" {
+		runSharedOpts(res, c)
+		return res
+	}
 	r := gen.NewRand(c.Seed, 14)
 	spec := gen.RandSchema(r, gen.SchemaOpts{MinStates: 2, MaxStates: 6,
 		PRequire: r.Float64() * 0.2, PAdd: r.Float64() * 0.3, PRemove: r.Float64() * 0.3,
